@@ -138,7 +138,8 @@ theorem rt_readIntLength (n : Nat) (h : n < 2 ^ 31) : RT readIntLength (encInt n
       simp only [this, if_false, Int.toNat_natCast]; exact rt_pure n)
   simpa using this
 
-theorem rt_readRaw (xs : Bytes) : RT (readRaw xs.length) xs xs := rt_takeN xs "few"
+theorem rt_readRaw (xs : Bytes) : RT (readRaw xs.length) xs xs := by
+  rw [readRaw_eq_takeN]; exact rt_takeN xs "few"
 
 theorem rt_readString (s : Bytes) (h : WfStr s) : RT readString (encString s) s := by
   unfold readString encString
@@ -597,10 +598,12 @@ def WfRawRows (f : Features) (r : RawRows) : Prop :=
 
 theorem rt_deserRawRows (f : Features) (r : RawRows) (h : WfRawRows f r) :
     RT (deserRawRows f) (encRawRows r) r := by
+  unfold deserRawRows
+  refine rt_sliced ?_
   obtain ⟨cc, g, pres, paging⟩ := r
   obtain ⟨hm, hcc, hp⟩ := h
   simp only at hm hcc hp
-  unfold deserRawRows encRawRows
+  unfold deserRawRowsHdr encRawRows
   refine rt_bind (rt_tag _ (rt_readInt _ (flagBits_range _ _ _ _))) ?_
   obtain ⟨b1, b2, b3, b4⟩ := flagSet_bits g paging.isSome (pres == .noMetadata) (pres == .withNewId)
   simp only [b1, b2, b3, b4]
@@ -883,6 +886,9 @@ theorem tr_takeN (xs : Bytes) (k : String) : TR (takeN xs.length k) xs := by
   have : s.buf.length < xs.length := by rw [hs]; omega
   simp [this]
 
+theorem tr_readRaw (xs : Bytes) : TR (readRaw xs.length) xs := by
+  rw [readRaw_eq_takeN]; exact tr_takeN xs "few"
+
 theorem tr_bindL {m : M α} {f : α → M β} {e : Bytes} (h : TR m e) : TR (m >>= f) e := by
   intro p t ht hp s hs
   obtain ⟨k, hk⟩ := h p t ht hp s hs
@@ -951,7 +957,7 @@ theorem tr_readInt (v : Int) : TR readInt (encInt v) := by
 
 theorem tr_readString (s : Bytes) (h : s.length < 65536) : TR readString (encString s) := by
   unfold readString encString
-  exact tr_bind (rt_readShort s.length h) (tr_readShort _) (tr_bindL (tr_takeN s "few"))
+  exact tr_bind (rt_readShort s.length h) (tr_readShort _) (tr_bindL (tr_readRaw s))
 
 theorem tr_readBytesOpt (o : Option Bytes) (h : ∀ b, o = some b → b.length < 2 ^ 31) :
     TR readBytesOpt (encBytesOpt o) := by
@@ -965,6 +971,6 @@ theorem tr_readBytesOpt (o : Option Bytes) (h : ∀ b, o = some b → b.length <
     refine tr_bind (rt_readInt (b.length : Int) (by have := h b rfl; omega)) (tr_readInt _) ?_
     have hn : ¬ ((b.length : Int) < 0) := by omega
     simp only [hn, if_false, Int.toNat_natCast]
-    exact tr_bindL (tr_takeN b "few")
+    exact tr_bindL (tr_readRaw b)
 
 end ScyllaVerif.C08
